@@ -354,7 +354,9 @@ func (d *diff) CompareDiff(ctx context.Context, dl Remote) (newIds, ourChangedId
 
 func (d *diff) compareResults(dctx *diffCtx, r Range, myRes, otherRes RangeResult) {
 	// both hash equals - do nothing
-	if bytes.Equal(myRes.Hash, otherRes.Hash) {
+	// a nil hash means "no hash for this range" (an empty range or a range that was not divided on that side
+	// and was answered by scanning), so two nil hashes say nothing about equality: compare the elements then
+	if len(myRes.Hash) != 0 && bytes.Equal(myRes.Hash, otherRes.Hash) {
 		return
 	}
 
